@@ -1,0 +1,14 @@
+//go:build verif
+
+package soyhtml
+
+import "bytes"
+
+// Hooks for the /verif machinery (build tag verif only).
+
+// VerifHTMLEscape exposes the autoescaper.
+func VerifHTMLEscape(s string) []byte {
+	var b bytes.Buffer
+	htmlEscapeString(&b, s)
+	return b.Bytes()
+}
